@@ -68,6 +68,33 @@ def t_node(rng, alpha, size, depth=0):
     return {"k": "rep", "a": t_node(rng, alpha, size - 1, depth + 1), "m": m, "n": n}
 
 
+def lk_node(rng, size, depth=0):
+    """Lark-LEVEL terminal expression (marked "lk": printed with Lark's own operators instead of one /regex/): string
+    literals with the `i` flag, /regex/i, character ranges "a".."f", composed with sequence / | / repetition at the
+    terminal level - the flag of one literal must not leak into its neighbours (lark/compiler.rs mk_regex)"""
+    if size <= 1 or depth > 2:
+        x = rng.random()
+        letters = [ord(c) for c in "abcdefks"]
+        if x < 0.3:
+            return {"k": "icase", "lk": 1, "a": {"k": "lit", "s": [rng.choice(letters + [48, 120]) for _ in range(rng.randint(1, 2))]}}
+        if x < 0.42:
+            return {"k": "icase", "lk": 1, "a": r_node(rng, letters[:4] + [48], 2, False)}
+        if x < 0.72:
+            base = rng.choice([97, 97, 98, 65, 48])
+            n = rng.randint(2, 4)
+            return {"k": "cls", "neg": 0, "lk": 1, "cps": list(range(base, base + n))}
+        if x < 0.9:
+            return {"k": "lit", "s": [rng.choice(letters + [65, 66, 48, 45]) for _ in range(rng.randint(1, 2))]}
+        return r_node(rng, letters[:3] + [65, 48], 2, True)
+    x = rng.random()
+    if x < 0.45:
+        return {"k": "cat", "lk": 1, "a": [lk_node(rng, size // 2, depth + 1) for _ in range(rng.randint(2, 3))]}
+    if x < 0.7:
+        return {"k": "alt", "lk": 1, "a": [lk_node(rng, size // 2, depth + 1) for _ in range(2)]}
+    m = rng.choice([0, 1, 1, 2])
+    return {"k": "rep", "lk": 1, "a": lk_node(rng, size - 1, depth + 1), "m": m, "n": rng.choice([-1, m + 1, m + 2])}
+
+
 def substr_node(rng):
     """%regex substring over a tiny alphabet so that chunks repeat (the suffix automaton then
     needs its clone states)"""
@@ -158,7 +185,12 @@ def lark_str(s):
 def lark_term(x):
     """Lark terminal expression (fully parenthesised where precedence matters)."""
     k = x["k"]
-    if is_rlevel(x):
+    if x.get("lk") and k == "icase":
+        # the `i` flag of Lark string and regex literals
+        return lark_str(x["a"]["s"]) + "i" if x["a"]["k"] == "lit" else "/" + rx_text(x["a"]) + "/i"
+    if x.get("lk") and k == "cls":
+        return lark_str([x["cps"][0]]) + ".." + lark_str([x["cps"][-1]])
+    if is_rlevel(x) and not x.get("lk"):
         if k == "lit":
             return lark_str(x["s"])
         return "/" + rx_text(x) + "/"
